@@ -1,0 +1,32 @@
+// Copyright 2017 Pilosa Corp.
+//
+// Licensed under the Apache License, Version 2.0 (the "License");
+// you may not use this file except in compliance with the License.
+// You may obtain a copy of the License at
+//
+//     http://www.apache.org/licenses/LICENSE-2.0
+//
+// Unless required by applicable law or agreed to in writing, software
+// distributed under the License is distributed on an "AS IS" BASIS,
+// WITHOUT WARRANTIES OR CONDITIONS OF ANY KIND, either express or implied.
+// See the License for the specific language governing permissions and
+// limitations under the License.
+
+//go:build verif
+// +build verif
+
+package pilosa
+
+import "time"
+
+// Export shims for the verification harness (/verif, property C28). Add-only, tag-guarded.
+
+// VerifC28ViewsByTime exposes viewsByTime for the standard view.
+func VerifC28ViewsByTime(t time.Time, q string) []string {
+	return viewsByTime(viewStandard, t, TimeQuantum(q))
+}
+
+// VerifC28ViewsByTimeRange exposes viewsByTimeRange for the standard view.
+func VerifC28ViewsByTimeRange(start, end time.Time, q string) []string {
+	return viewsByTimeRange(viewStandard, start, end, TimeQuantum(q))
+}
